@@ -46,7 +46,7 @@ def BOUNDS(tier):
 
 def schema(tier):
     return {
-        "m": [("api", 7), ("mt", 2), ("fs", 2)],
+        "m": [("api", 7), ("mt", 2), ("fs", 2), ("rf", 2)],
         "a": [
             ("style", BOUNDS(tier)["styles"]),
             ("typed", 2),
@@ -54,6 +54,7 @@ def schema(tier):
             ("sf", 2),
             ("ef", 2),
             ("xf", 3),
+            ("rf", 2),
         ],
     }
 
